@@ -629,6 +629,12 @@ def mon_c16(rec):
     if rec.error is not None or rec.final is None:
         return out
     means, thetas, covs = final_params(rec)
+    # S_k is the covariance cluster k was FITTED to: the output of the last statistics phase, and
+    # Theta_k what the run returns - not whatever the state handed to the metric happens to hold
+    n, last = final_round(rec)
+    if last is not None and "stats" in last and "out" in last["stats"]:
+        covs = [c.empirical_covariance for c in last["stats"]["out"].clusters]
+    thetas = [np.asarray(a) for a in rec.result.markov_random_fields]
     labels = stacked_labels(rec)
     try:
         want, scale = refs.bic(labels, thetas, covs)
